@@ -108,6 +108,7 @@ def main():
     ap.add_argument("--fn", default="")
     ap.add_argument("--tier", default="quick")
     ap.add_argument("--rerun")
+    ap.add_argument("--sweep")
     a = ap.parse_args()
     sys.path.insert(0, os.path.dirname(os.path.abspath(__file__)))
     err = build()
@@ -127,6 +128,18 @@ def main():
             bad += 1 if same else 0
             print(f"{fi['id']}: recorded {fi['outcome'][:60]} | now {now[:60]} | {'STILL FAILS' if same else 'changed'}")
         return 1 if bad else 0
+    if a.sweep:
+        import families_ext
+        tried = 0
+        failing = []
+        for fam in a.sweep.split(","):
+            probes = run_family(fam, a.tier)
+            tried += len(probes)
+            for p in probes:
+                if families_ext._viol(p) and not any(t.startswith("known-") for t in p["tags"]):
+                    failing.append({"id": p["id"], "call": p["call"], "inputs": p["inputs"], "outcome": p["outcome"], "why": "outcome contradicts the property"})
+        print(json.dumps({"families": a.sweep.split(","), "tried": tried, "failing_count": len(failing), "failing_inputs": failing[:12]}))
+        return 0
     steps = plan(a.label, a.fn)
     tried = 0
     failing = []
